@@ -81,4 +81,169 @@ theorem mem_bucket_arriveAll (as : List Arrival) (s : IState) (nm : String) (k :
         · exact .inl (.inr ⟨h1.symm, h2⟩)
         · exact .inr ⟨a, ha', h1, h2⟩
 
+/-! ### the same for match elements of any kind (`nameOfSpec`: reference / object by name / bare event) -/
+
+theorem reg_addHeadSpec (s : IState) (k k' : Key) (flows : List String) (ctx : Ctx) (spec : ElemSpec) :
+    reg (addHeadSpec s k flows ctx spec) k' =
+      match nameOfSpec flows ctx spec with
+      | .ok nm => if k' = k then some nm else reg s k'
+      | .error _ => reg s k' := by
+  unfold addHeadSpec
+  cases h : nameOfSpec flows ctx spec with
+  | ok nm => simp [reg_rawAdd]
+  | error e => simp
+
+theorem bucket_addHeadSpec (s : IState) (k : Key) (flows : List String) (ctx : Ctx) (spec : ElemSpec) (nm' : String) :
+    bucket (addHeadSpec s k flows ctx spec) nm' =
+      match nameOfSpec flows ctx spec with
+      | .ok nm => if nm' = nm then bucket s nm ++ [k] else bucket s nm'
+      | .error _ => bucket s nm' := by
+  unfold addHeadSpec
+  cases h : nameOfSpec flows ctx spec with
+  | ok nm => simp [bucket_rawAdd]
+  | error e => simp
+
+theorem reg_arriveS (s : IState) (a : ArrivalS) (k : Key) :
+    reg (arriveS s a) k =
+      match nameOfSpec a.flows a.ctx a.spec with
+      | .ok nm => if k = a.key then some nm else reg s k
+      | .error _ => reg s k := reg_addHeadSpec s a.key k a.flows a.ctx a.spec
+
+theorem reg_arriveS_of_ne (s : IState) (a : ArrivalS) (k : Key) (h : k ≠ a.key) : reg (arriveS s a) k = reg s k := by
+  rw [reg_arriveS]; split <;> simp [h]
+
+theorem reg_arriveAllS_of_not_mem (as : List ArrivalS) (s : IState) (k : Key) (h : ∀ a ∈ as, a.key ≠ k) :
+    reg (arriveAllS s as) k = reg s k := by
+  induction as generalizing s with
+  | nil => rfl
+  | cons x rest ih =>
+    simp only [arriveAllS, List.foldl_cons]
+    have := ih (arriveS s x) (fun a ha => h a (List.mem_cons_of_mem _ ha))
+    simp only [arriveAllS] at this
+    rw [this, reg_arriveS_of_ne s x k (fun e => h x List.mem_cons_self e.symm)]
+
+theorem mem_bucket_arriveS (s : IState) (a : ArrivalS) (nm : String) (k : Key) :
+    k ∈ bucket (arriveS s a) nm ↔ k ∈ bucket s nm ∨ (k = a.key ∧ nameOfSpec a.flows a.ctx a.spec = .ok nm) := by
+  unfold arriveS
+  rw [bucket_addHeadSpec]
+  split
+  · rename_i nm0 h0
+    by_cases hn : nm = nm0
+    · subst hn; simp [h0]
+    · have : ¬ nm0 = nm := fun e => hn e.symm
+      simp [hn, h0, this]
+  · rename_i e h0
+    simp [h0]
+
+theorem mem_bucket_arriveAllS (as : List ArrivalS) (s : IState) (nm : String) (k : Key) :
+    k ∈ bucket (arriveAllS s as) nm ↔ k ∈ bucket s nm ∨ ∃ a ∈ as, a.key = k ∧ nameOfSpec a.flows a.ctx a.spec = .ok nm := by
+  induction as generalizing s with
+  | nil => simp [arriveAllS]
+  | cons x rest ih =>
+    simp only [arriveAllS, List.foldl_cons]
+    have := ih (arriveS s x)
+    simp only [arriveAllS] at this
+    rw [this, mem_bucket_arriveS]
+    constructor
+    · rintro ((h | ⟨h1, h2⟩) | ⟨a, ha, h1, h2⟩)
+      · exact .inl h
+      · exact .inr ⟨x, List.mem_cons_self, h1.symm, h2⟩
+      · exact .inr ⟨a, List.mem_cons_of_mem _ ha, h1, h2⟩
+    · rintro (h | ⟨a, ha, h1, h2⟩)
+      · exact .inl (.inl h)
+      · rcases List.mem_cons.mp ha with rfl | ha'
+        · exact .inl (.inr ⟨h1.symm, h2⟩)
+        · exact .inr ⟨a, ha', h1, h2⟩
+
+/-- the name of a flow's member event, for a flow given by name: the table (every member of `FlowState._event_name_map`;
+    anything else is not available) -/
+theorem namedFlowEventName_table (m : String) :
+    namedFlowEventName m =
+      if m = "Start" then .ok "StartFlow"
+      else if m = "Started" then .ok "FlowStarted"
+      else if m = "Finished" then .ok "FlowFinished"
+      else if m = "Failed" then .ok "FlowFailed"
+      else if m = "Stop" ∨ m = "Pause" ∨ m = "Resume" then .error .delMissingKey
+      else if m = "Paused" ∨ m = "Resumed" then .error .attributeError
+      else .error .flowEventNotAvailable := by
+  by_cases h1 : m = "Start"
+  · subst h1; rfl
+  by_cases h2 : m = "Started"
+  · subst h2; rfl
+  by_cases h3 : m = "Finished"
+  · subst h3; rfl
+  by_cases h4 : m = "Failed"
+  · subst h4; rfl
+  by_cases h5 : m = "Stop"
+  · subst h5; rfl
+  by_cases h6 : m = "Pause"
+  · subst h6; rfl
+  by_cases h7 : m = "Resume"
+  · subst h7; rfl
+  by_cases h8 : m = "Paused"
+  · subst h8; rfl
+  by_cases h9 : m = "Resumed"
+  · subst h9; rfl
+  simp only [h1, h2, h3, h4, h5, h6, h7, h8, h9, if_false, or_self]
+  have hf : flowEventName m = .error .flowEventNotAvailable := by
+    unfold flowEventName
+    split <;> simp_all
+  simp [namedFlowEventName, hf]
+
+/-! ### indexer's name function vs dispatcher's name function -/
+
+theorem nameOfSpecG_actionEventName (flows : List String) (ctx : Ctx) (s : ElemSpec) :
+    nameOfSpecG actionEventName flows ctx s = nameOfSpec flows ctx s := by
+  rcases s with ⟨vn, n, t, ms⟩
+  cases vn <;> simp only [nameOfSpecG, nameOfSpec, nameOf] <;> rfl
+
+theorem actionEventName_change (a : String) : actionEventName a "Change" = .error .changeWithoutArguments := by
+  unfold actionEventName
+  rw [if_neg (by decide)]
+  rfl
+
+theorem actionEventNameD_of_ok (b : Bool) (a m nm : String) (h : actionEventName a m = .ok nm) : actionEventNameD b a m = .ok nm := by
+  unfold actionEventNameD
+  split
+  · rename_i hc
+    obtain ⟨hm, _⟩ := hc
+    subst hm
+    rw [actionEventName_change] at h
+    cases h
+  · exact h
+
+theorem nameOfSpecG_mono (an1 an2 : String → String → Except Err String)
+    (hmono : ∀ a m nm, an1 a m = .ok nm → an2 a m = .ok nm)
+    (flows : List String) (ctx : Ctx) (s : ElemSpec) (nm : String)
+    (h : nameOfSpecG an1 flows ctx s = .ok nm) : nameOfSpecG an2 flows ctx s = .ok nm := by
+  rcases s with ⟨vn, n, t, ms⟩
+  cases vn with
+  | none =>
+    cases ms with
+    | none => simpa [nameOfSpecG] using h
+    | some l =>
+      cases t <;> cases n <;> cases l <;> simp only [nameOfSpecG] at h ⊢ <;> first
+        | exact h
+        | exact hmono _ _ _ h
+        | (split at h <;> simp_all)
+  | some v =>
+    simp only [nameOfSpecG] at h ⊢
+    generalize ctx.find? (fun x => decide (x.1 = v)) = fo at h ⊢
+    cases fo with
+    | none => simp at h
+    | some p =>
+      obtain ⟨_, obj⟩ := p
+      simp only at h ⊢
+      generalize walk obj _ = w at h ⊢
+      cases w with
+      | error e => simp at h
+      | ok o =>
+        simp only at h ⊢
+        generalize o.kind = k at h ⊢
+        generalize ms.bind List.getLast? = mo at h ⊢
+        cases k <;> cases mo <;> simp only at h ⊢ <;> first
+          | exact h
+          | exact hmono _ _ _ h
+          | simp_all
+
 end NemoVerif.RefName
